@@ -10,7 +10,7 @@ from __future__ import annotations
 import ast
 
 from mlmverif import cfg as cfgm
-from mlmverif.core import (AnalysisError, Ctx, FuncInfo, is_self_attr, kwarg,
+from mlmverif.core import (parent_map, AnalysisError, Ctx, FuncInfo, is_self_attr, kwarg,
                            unparse, walk_no_nested)
 from mlmverif.effects import DIRECT, ELEM, NONE, Effects
 
@@ -32,7 +32,7 @@ T = 'chainables.tree'
 
 
 def run(ctx: Ctx):
-  for r in (r1, r2, r3, r4, r5, r6, r7, r8, r9, r10, r11, r12):
+  for r in (r1, r2, r3, r4, r5, r6, r7, r8, r9, r10, r11, r12, r13):
     ctx.guard(r)
 
 
@@ -648,10 +648,53 @@ def r12(ctx: Ctx):
   ctx.floor(rule, 20, n)
 
 
+def r13(ctx: Ctx):
+  rule = 'R-C18-13'
+  ctx.rule(rule, '"iterating a view lists every leaf exactly once ... applying a leaf function maps every leaf": what a leaf IS is'
+           ' decided by the KIND of the node, never by its truth value. In the leaf enumeration (_dfs_iter_tree) the node'
+           ' is tested by truth only as the emptiness test of a container — a conjunct next to an isinstance(node, Mapping /'
+           ' Sequence) test in the same condition. A bare `elif data:` drops falsy leaves (0, \'\', False, np.zeros(1)) and'
+           ' raises for a multi-element array ("truth value of an array is ambiguous")')
+  from mlmverif.props.c17 import _truth_positions
+  fi = ctx.repo.func(T, '_dfs_iter_tree')
+  p = fi.params()[0]
+  n = 0
+  bad = None
+  pm = parent_map(fi.node)
+  for t in _truth_positions(fi.node):
+    if not (isinstance(t, ast.Name) and t.id == p):
+      continue
+    n += 1
+    par = pm.get(t)
+    # allowed: `isinstance(data, X) and ... and data` (emptiness of a container), possibly under a `not`
+    q, ok = t, False
+    while q in pm:
+      par = pm[q]
+      if isinstance(par, ast.BoolOp) and isinstance(par.op, ast.And) and any(
+          isinstance(v, ast.Call) and unparse(v.func) == 'isinstance' and v.args and unparse(v.args[0]) == p
+          and not any(isinstance(y, ast.Name) and y.id == 'str' for y in ast.walk(v.args[1]))
+          for v in par.values if v is not q):
+        ok = True
+      q = par
+    if not ok:
+      bad = bad or t
+  what = '_dfs_iter_tree: a node is tested by truth only as the emptiness of a container'
+  if bad is None:
+    ctx.ok(rule, fi, what, fi.node)
+  else:
+    ctx.fail(rule, fi, what,
+             f'`{p}` is used as a bare truth value at line {bad.lineno} of _dfs_iter_tree: a falsy leaf (0, \'\', False, an array of'
+             ' one zero) is not listed and not mapped, and a multi-element array raises ValueError — leaves are to be'
+             ' recognised by their kind', node=bad)
+  ctx.floor(rule, 2, n)
+
+
 from mlmverif.selfcheck import B, OK  # noqa: E402
 
 _F = 'chainables/tree.py'
 VARIANTS = [
+    B('revert-root-leaf-by-truth', 'chainables/tree.py',
+      "  elif data is not None and not (\n      isinstance(data, (Mapping, Sequence)) and not isinstance(data, str)\n  ):\n", "  elif data:\n", 'R-C18-13'),
     B('as-view-rewires-the-incoming-view', 'chainables/tree.py',
       "      tree_or_view = dataclasses.replace(\n          tree_or_view,\n          map_fn=map_fn,\n      )", "      tree_or_view.map_fn = map_fn", 'R-C18-12'),
     B('setter-strips-self-and-descends', 'chainables/tree.py',
